@@ -79,15 +79,16 @@ PROPS = {
     'C01': dict(
         title='Lexing and parsing are total',
         verus=['lexer', 'tables', 'parser_core', 'parser_stmts', 'parser_exprs', 'parser_poetic', 'parser_names'], kani=['c01_'],
-        technique=V + ' — PARTIAL: slicing preconditions (valid char-boundary slice = no out-of-bounds read in debug or '
-                      'release) and u32 column arithmetic of the lexer primitives; every get_*_operator(..).unwrap() token '
-                      'list extracted from parser.rs call sites proved total; parser token primitives, statement dispatch and '
-                      'statement parsers over an abstract token stream: every consume()/unwrap()/unreachable_unchecked() site in them '
-                      'is an obligation, the block and program loops terminate (decreases: tokens left). Not decided: match_loop / '
-                      'scan_delimited / tokenize_word, the expression / identifier / poetic-literal parsers',
-        level_note='partial: lexer match_loop, scan_delimited, tokenize_word, the expression, identifier, function and poetic '
-                   'parsers and Display for ParseError are NOT under contract (DESIGN.md §5 C01); assumed: find_next_word_end, '
-                   'substr, KEYWORDS lookup, std str functions, the token stream model (CommentSkippingLexer::next/clone)',
+        technique=V + ' — PARTIAL: lexer: slicing preconditions (valid char-boundary slice = no out-of-bounds read in debug or release), '
+                      'u32 column / line arithmetic, the token loop match_loop (every branch ends on a boundary at or after the cursor, '
+                      'the loop terminates, None only at the end of the buffer), scan_delimited, tokenize_word (non-empty stem); parser: '
+                      'every get_*_operator(..).unwrap() token list proved total, token primitives, statement dispatch, statement / '
+                      'expression / name / poetic-literal parsers over an abstract token stream: every consume() / unwrap() / '
+                      'unchecked_unwrap() / unreachable_unchecked() site in them is an obligation, the block, program, list and operator '
+                      'loops terminate (decreases: tokens left). Inputs assumed shorter than u32::MAX bytes',
+        level_note='partial: CommentSkippingLexer::next, find_word_start / find_next_index / substr / advance_to (assumed contracts), '
+                   'primary expressions, array subscripts, common / capitalised identifiers (match_and_consume_while with FnMut closures), '
+                   'poetic strings, Display for ParseError and stack depth are NOT under contract (DESIGN.md §10.5)',
     ),
     'C02': dict(
         title='Every spelling of a program parses to the same syntax tree',
@@ -134,10 +135,13 @@ PROPS = {
     'C12': dict(
         title='Tokens carry their exact spelling and true source position',
         verus=['lexer'], kani=['c12_'],
-        technique=K + ' (SourceRange / SourceLocation algebra, all u32) + ' + V + ' — PARTIAL: single-token constructors '
-                      '(spelling = buf[start..end], range = that span on the current line, newline bookkeeping, suffix after a '
-                      'multi-line literal, error tokens). Token tiling by match_loop / scan_delimited / tokenize_word is not decided',
-        level_note='partial: see DESIGN.md §5 C12',
+        technique=K + ' (SourceRange / SourceLocation algebra, all u32) + ' + V + ' — PARTIAL: every token constructor (spelling = '
+                      'buf[start..end], range = that span on the current line; multi-line comments / strings end on the line the text ends '
+                      'on; suffix tokens after words, numbers, strings and comments; error tokens), tokenize_word (stem and staged suffix '
+                      'spelled and positioned exactly), and the token loop: each token starts on the line the lexer stood on, at a column '
+                      'between the old and the new cursor, the line counter follows the newlines of the token, a new line start never lies '
+                      'beyond the cursor. That what lies BETWEEN two tokens is ignorable (find_word_start) is assumed, not proved',
+        level_note='partial: see DESIGN.md §10.3b; char_indices is a ghost cursor, str functions are assumed',
     ),
     'C13': dict(
         title='Syntax errors are rejected and attributed to the line they occur on',
